@@ -23,7 +23,7 @@ import time
 import common as C
 from common import cN, clist
 
-IMPORTS = "From DJC Require Import Lib.Base PostRender.Model."
+IMPORTS = "From DJC Require Import Lib.Base PostRender.Model PostRender.Ident."
 TAGS = ["div", "span", "section", "p", "ul", "li"]
 TAGN = {t: i + 1 for i, t in enumerate(TAGS)}
 ATTR = "data-djc-id-"
@@ -478,14 +478,17 @@ class TooBig(Exception):
 
 def reference_doc(lib, page, cap=None):
     """Independent executable statement of the property: expand the program (each component instance gets a fresh
-    number), and emit every element with exactly the ids of the instances it is a top-level element of.
-    Also returns the number of instances and the recursion depth the Coq expansion needs (its fuel)."""
+    number, in the order of the Coq expansion), and emit every element with exactly the ids of the instances it is a
+    top-level element of.  Also returns the number of instances, the recursion depth the Coq expansion needs (its
+    fuel), and for the model of Component.id: the labels of the instances rendered from inside get_context_data
+    ("early") and (label, object) for the instances rendered by the Component object of their host (self.render())."""
     counter = [0]
     maxd = [0]
+    meta = {"early": [], "obj": []}
 
-    def walk(forest, env, inherited, out, d):
-        # inherited: ids carried by top-level elements at this position
-        # env: (fills {slot: forest}, env of the fills' author) | None
+    def walk(forest, env, inherited, out, d, cur):
+        # inherited: ids carried by top-level elements at this position; cur: the object rendering this template
+        # env: (fills {slot: forest}, env of the fills' author, object of the fills' author) | None
         maxd[0] = max(maxd[0], d)
         if cap is not None and (counter[0] > cap or len(out) > 12 * cap):
             raise TooBig()
@@ -493,7 +496,7 @@ def reference_doc(lib, page, cap=None):
             k = t[0]
             if k == "E":
                 out.append(("open", t[1], list(inherited)))
-                walk(t[2], env, [], out, d + 1)
+                walk(t[2], env, [], out, d + 1, cur)
                 out.append(("close", t[1]))
             elif k == "C":
                 mine = []
@@ -503,25 +506,53 @@ def reference_doc(lib, page, cap=None):
                 fills = {}
                 for s, b, _e in t[3]:
                     fills.setdefault(s, b)
-                walk(lib[t[1]][0], (fills, env) if t[3] else None, inherited + mine, out, d + 1)
+                walk(lib[t[1]][0], (fills, env, cur) if t[3] else None, inherited + mine, out, d + 1, mine[-1])
             elif k == "S":
                 if env is not None and t[1] in env[0]:
-                    walk(env[0][t[1]], env[1], inherited, out, d + 1)
+                    walk(env[0][t[1]], env[1], inherited, out, d + 1, env[2])
                 else:
-                    walk(t[2], env, inherited, out, d + 1)
+                    walk(t[2], env, inherited, out, d + 1, cur)
             elif k == "R":
                 for _ in range(t[1]):
-                    walk(t[2], env, inherited, out, d + 1)
+                    walk(t[2], env, inherited, out, d + 1, cur)
             elif k == "I":
                 if t[1]:
-                    walk(t[2], env, inherited, out, d + 1)
+                    walk(t[2], env, inherited, out, d + 1, cur)
             elif k == "P":
-                mine = [counter[0]]
+                me = counter[0]
                 counter[0] += 1
-                walk(lib[t[1]][0], None, inherited + mine, out, d + 1)
+                o = me
+                if t[2].startswith("self") and cur is not None:
+                    o = cur
+                    meta["obj"].append((me, cur))
+                if t[2] == "self-gcd":
+                    meta["early"].append(me)
+                walk(lib[t[1]][0], None, inherited + [me], out, d + 1, o)
     out = []
-    walk(page, None, [], out, 1)
-    return out, counter[0], maxd[0] + 2
+    walk(page, None, [], out, 1, None)
+    return out, counter[0], maxd[0] + 2, meta
+
+
+def alloc_tokens(toks, order):
+    """Element tokens with every id replaced by its allocation index (position of the instance in the LOG)."""
+    out = []
+    for t in toks:
+        if t[0] == "open":
+            out.append(("open", t[1], sorted(order.get(x, (1 << 20) + i) for i, x in enumerate(t[2]))))
+        elif t[0] == "close":
+            out.append(t)
+    return out
+
+
+def coq_case(lib, page, mode, fuel, meta, toks, log):
+    order = {}
+    for i, e in enumerate(log):
+        order.setdefault(e[0], i)
+    reps = ["(%s, %s)" % (cN(order.get(e[4], 1 << 20)), C.copt(e[5], lambda v: cN(order.get(v, 1 << 20)))) for e in log]
+    return "(%s, %s, %s, %s, %s, %s, %s, %s)" % (
+        cN(fuel), coq_prog(lib, page, mode), clist([cN(x) for x in meta["early"]]),
+        clist(["(%s, %s)" % (cN(a), cN(b)) for a, b in meta["obj"]]), coq_obs(alloc_tokens(toks, order)),
+        cN(len(log)), cN(sum(1 for l in log if l[2])), clist(reps))
 
 
 def canon_tokens(toks, order=None):
@@ -756,17 +787,18 @@ def run_case(chk, lib, page, mode, api, kind, terms, cases, ids="counter", resee
                       "html": html_out[:700]} if (nontriv and npend and kind == "random" and len(html_out) < 1000) else None)
     order = {x: i for i, x in enumerate(logged)}
     ctoks = canon_tokens(toks, order)
+    meta = {"early": [], "obj": []}
     if kind.startswith("chain"):
         fuel = 4 * len(lib) + 10          # (the reference is recursive Python; chains go far beyond the interpreter's limit)
     else:
-        ref, ninst, fuel = reference_doc(lib, page)
+        ref, ninst, fuel, meta = reference_doc(lib, page)
         if canon_tokens(ref) != ctoks:
             fails.append("elements / data-djc-id sets differ from the reference (ids on the top-level elements of each instance's output, nowhere else)")
         elif ninst != len(logged):
             fails.append("%d instances rendered, %d expected" % (len(logged), ninst))
     if fails:
         chk.fail("c14-root-ids", fails[0], dict(case, failures=fails[:5], html=html_out[:4000]))
-    terms.append("(%s, %s, %s, %s, %s)" % (cN(fuel), coq_prog(lib, page, mode), coq_obs(ctoks), cN(len(logged)), cN(nre)))
+    terms.append(coq_case(lib, page, mode, fuel, meta, toks, log))
     cases.append(dict(case, html=html_out[:4000], observed=ctoks[:400], reentrant_root_runs=nre))
 
 
@@ -844,7 +876,7 @@ def run(tier, seed):
     # ---- real (random) ids: the library's own id generator, full pipeline ----
     real_ids(chk, 1500 if thorough else 400, terms, cases)
     t0 = time.time()
-    bad = C.coq_eval_cases("C14", "doc", IMPORTS, "c14_case", "check_c14", terms, shard=300, timeout=900)
+    bad = C.coq_eval_cases("C14", "doc", IMPORTS, "c14i_case", "check_c14i", terms, shard=300, timeout=900)
     chk.extra["coq_eval_programs_s"] = round(time.time() - t0, 1)
     for i in bad[:20]:
         chk.disagree("PostRender model != implementation (element structure / data-djc-id sets / number of instances / "
@@ -877,13 +909,15 @@ def run(tier, seed):
              % ("" if thorough else " (every 9th in quick)", len(shapes(1)), len(shapes(2)), len(shapes(None)),
                 "" if thorough else " (every 8th in quick)", "/2000" if thorough else ""),
         explanation="theorems of Props/C14.v re-checked by coqc; for every program the Coq model (expand -> page_render = the deferred-render "
-                    "queue incl. re-entrant root runs on the shared tables) is evaluated by vm_compute and its element tokens with canonically "
-                    "renumbered ids must equal the html.parser view of the implementation's output, the number of instances must equal the "
-                    "number of Component.id values reported, and the number of re-entrant root runs must equal the number of instances observed "
-                    "to start without a parent while another instance was being rendered; direct oracle on EVERY instance: begin/end markers "
-                    "echoing Component.id delimit each instance's output - every element at the top level of that span carries "
-                    "data-djc-id-<id>, no other element does, every id on an element was reported by some instance, ids pairwise distinct, "
-                    "no placeholder survives; independent Python reference of the expected document.",
+                    "queue incl. re-entrant root runs on the shared tables; page_events/exec = allocation order and metadata stacks behind "
+                    "Component.id) is evaluated by vm_compute: its element tokens, with every id replaced by its ALLOCATION INDEX, must equal the "
+                    "html.parser view of the implementation's output with every id replaced by the position of its instance in the creation "
+                    "log (order of the gen_id calls); the number of instances, the number of re-entrant root runs, and per instance the ids "
+                    "Component.id reported at the end of get_context_data / on_render_before must equal the model's reads; direct oracle on EVERY "
+                    "instance: begin/end markers echoing Component.id delimit each instance's output - every element at the top level of that "
+                    "span carries data-djc-id-<id>, no other element does, every id on an element was reported by some instance, the ids read "
+                    "at the start, after nested renders of the same instance and in the hook agree, ids pairwise distinct, no placeholder "
+                    "survives; independent Python reference of the expected document.",
         extra_trusted=["harness/gen_c14.py (prints the placeholder regexes, the placeholder text, the id alphabet/length of /repo as Coq literals)",
                        "modelled, not verified: djc_core_html_parser.set_html_attributes (as: add the attributes to every element and "
                        "placeholder at nesting depth 0, report the attributes set on every placeholder), Django template rendering of the "
@@ -1045,20 +1079,22 @@ def replay(path):
         print("user code calls random.seed(%d) in:" % RESEED_CONST, reseed, "(page rendered twice, second render shown)")
     html_out, exc, log, tabs = render_impl(c["lib"], c["page"], c.get("mode", "django"), c.get("api", "template"), reseed=reseed)
     print("implementation:", html_out if html_out is not None else exc)
-    print("instances (Component.id, root run, re-entrant, pending attr entries):", log)
+    print("instances in allocation order (Component.id at start, root run, re-entrant, pending attr entries, id after get_context_data, id after on_render_before):", log)
     if html_out is not None:
         logged = [l[0] for l in log]
         toks = parse_html(html_out)
         fails = direct_oracle(toks, log, all(m for _f, m in c["lib"]))
         ctoks = canon_tokens(toks, {x: i for i, x in enumerate(logged)})
-        ref, ninst, fuel = reference_doc(c["lib"], c["page"])
-        if canon_tokens(ref) != ctoks:
-            fails.append("elements / data-djc-id sets differ from the reference")
+        if len(c["lib"]) > 100:
+            fuel, meta = 4 * len(c["lib"]) + 10, {"early": [], "obj": []}
+        else:
+            ref, ninst, fuel, meta = reference_doc(c["lib"], c["page"])
+            if canon_tokens(ref) != ctoks:
+                fails.append("elements / data-djc-id sets differ from the reference")
         print("direct oracle:", fails or "holds")
-        print("observed (canonical):", ctoks)
-        bad = C.coq_eval_cases("C14", "replay", IMPORTS, "c14_case", "check_c14",
-                               ["(%s, %s, %s, %s, %s)" % (cN(fuel), coq_prog(c["lib"], c["page"], c.get("mode", "django")),
-                                                         coq_obs(ctoks), cN(len(logged)), cN(sum(1 for l in log if l[2])))])
+        print("observed (ids = allocation index):", alloc_tokens(toks, {x: i for i, x in reversed(list(enumerate(logged)))}))
+        bad = C.coq_eval_cases("C14", "replay", IMPORTS, "c14i_case", "check_c14i",
+                               [coq_case(c["lib"], c["page"], c.get("mode", "django"), fuel, meta, toks, log)])
         print("model agrees:", not bad)
         return 1 if (fails or bad) else 0
     return 1
